@@ -47,6 +47,8 @@ def run(rep, tier):
     # R4 signed overflow in folding (import of C07-R3)
     from . import c07
     c07.rule_overflow(c01._Rename(rep, {'R3': 'R4'}), idx)
+    # R9 no out-of-bounds read while packing string literals (import of C01-R6)
+    c01.rule_strings(c01._Rename(rep, {'R6': 'R9'}), idx)
     # R5 use after move
     rep.rule('R5', 'no use of a std::unique_ptr variable after it has been moved from (dereference or member call before reassignment), in any '
              'function of xcmp::', floor=15)
